@@ -9,10 +9,23 @@ thread_local! {
 /// cannot crowd out the others (the shared `Report` keeps 200 failures in total)
 fn cat_fail(rep: &mut Report, prop: &str, replay: String) {
     let kind = replay.split(' ').next().unwrap_or("").to_string();
-    let class: String = match replay.rfind("=> ") {
-        Some(i) => replay[i + 3..].chars().filter(|c| !c.is_ascii_digit()).take(28).collect(),
-        None => String::new(),
+    // class = the reason text without the numbers / table contents
+    let tail = match replay.rfind("=> ") {
+        Some(i) => &replay[i + 3..],
+        None => "",
     };
+    let tail = match (tail.find('('), tail.starts_with(|c: char| c.is_ascii_hexdigit())) {
+        (Some(i), true) => &tail[i..],
+        _ => tail,
+    };
+    let class: String = tail
+        .split(' ')
+        .filter(|w| !w.chars().all(|c| c.is_ascii_hexdigit() || c == ':' || c == ',' || c == '-'))
+        .collect::<Vec<_>>()
+        .join("_")
+        .chars()
+        .take(40)
+        .collect();
     let key = format!("{}|{}|{}", prop, kind, class);
     let n = FAIL_CLASSES.with(|m| {
         let mut m = m.borrow_mut();
@@ -20,7 +33,7 @@ fn cat_fail(rep: &mut Report, prop: &str, replay: String) {
         *e += 1;
         *e
     });
-    rep.count(&format!("FAILCLASS {} {} {}", prop, kind, class.replace(' ', "_")));
+    rep.count(&format!("FAILCLASS {} {} {}", prop, kind, class));
     if n <= 6 {
         rep.fail(prop, replay);
     }
@@ -55,7 +68,10 @@ fn tiling_defect(p: u32, t: &[Triple]) -> Option<String> {
         if pr >= total {
             return Some(format!("entry {} has probability one", i));
         }
-        c += pr;
+        c = c.saturating_add(pr);
+        if c > total {
+            return Some(format!("entry {} ends at {:x}, beyond 2^P", i, c));
+        }
     }
     if c != total {
         return Some(format!("total {:x} != 2^P", c));
@@ -119,11 +135,20 @@ fn outside_symbols(rng: &mut Rng, t: &[Triple]) -> Vec<usize> {
 
 /// C03 (+ C09, C20 bookkeeping) on one model against the table `expect` (`None`: the model's own)
 fn check_model(rng: &mut Rng, rep: &mut Report, desc: &str, b: u32, p: u32, m: &dyn DynModel, expect: Option<&[Triple]>, prop: &str) -> Option<Vec<Triple>> {
+    // Structural checks FIRST and only through calls that cannot reach an unsafe precondition:
+    // `symbol_table()` builds its `NonZero`s with the checked `into_nonzero().expect(..)`, so a
+    // zero-probability entry shows up as an ordinary (catchable) panic, whereas
+    // `left_cumulative_and_probability` / `quantile_function` would hit
+    // `into_nonzero_unchecked(0)` or an unchecked index and abort the process.
     let own = match guarded(|| m.table()) {
         Ok(x) => x,
         Err(class) => {
             rep.eval(prop);
-            cat_fail(rep, prop, format!("{} | table => {}", desc, class));
+            cat_fail(rep, prop, format!("{} | table => {} (an accepted model whose symbol table cannot be listed)", desc, class));
+            if prop != "C19" {
+                cat_fail(rep, "C19", format!("{} | table => {} (accepted model is not a valid model)", desc, class));
+            }
+            cat_fail(rep, "C20", format!("{} | table => {}: accepted model has a zero-probability entry and would reach into_nonzero_unchecked(0) in left_cumulative_and_probability / quantile_function (queries skipped)", desc, class));
             return None;
         }
     };
@@ -136,6 +161,12 @@ fn check_model(rng: &mut Rng, rep: &mut Report, desc: &str, b: u32, p: u32, m: &
     rep.eval("C20");
     if let Some(d) = tiling_defect(p, &t) {
         cat_fail(rep, prop, format!("{} | table => {} ({})", desc, show_table(&t), d));
+        if own.is_some() {
+            if prop != "C19" {
+                cat_fail(rep, "C19", format!("{} | table => {} ({}: accepted model is not a valid model)", desc, show_table(&t), d));
+            }
+            cat_fail(rep, "C20", format!("{} | table => {} ({}): accepted model would reach into_nonzero_unchecked(0) / an unchecked index out of bounds in its query functions (queries skipped)", desc, show_table(&t), d));
+        }
         return Some(t);
     }
     if let (Some(own), Some(e)) = (&own, expect) {
@@ -255,7 +286,7 @@ fn expected_table(labels: &[usize], probs: &[u128]) -> Vec<Triple> {
         .zip(probs.iter())
         .map(|(&l, &p)| {
             let e = (l, c, p);
-            c += p;
+            c = c.saturating_add(p);
             e
         })
         .collect()
@@ -290,44 +321,182 @@ fn oracle_valid(rng: &mut Rng, rep: &mut Report, b: u32, p: u32, kind: &str, pro
     }
 }
 
-/// arbitrary input: rejected, or a valid model with at least two symbols
+/// The oracle's own reading of a fixed-point table, in wide checked arithmetic: the full table
+/// (input plus inferred entry) or the reason why the input is invalid.
+fn table_verdict(p: u32, probs: &[u128], infer: bool) -> Result<Vec<u128>, String> {
+    let total = pow2(p);
+    let mut sum = 0u128;
+    for (i, &q) in probs.iter().enumerate() {
+        if q == 0 {
+            return Err(format!("entry {} is zero", i));
+        }
+        sum = sum.saturating_add(q);
+    }
+    let mut full = probs.to_vec();
+    if infer {
+        if probs.is_empty() {
+            return Err("no explicit entry (a single symbol would carry the whole mass)".into());
+        }
+        if sum >= total {
+            return Err(format!("explicit entries sum to {:x} >= 2^P, nothing is left for the inferred entry", sum));
+        }
+        full.push(total - sum);
+    } else {
+        if sum != total {
+            return Err(format!("entries sum to {:x} != 2^P", sum));
+        }
+    }
+    if full.len() < 2 {
+        return Err("a single symbol carries the whole mass".into());
+    }
+    Ok(full)
+}
+
+/// should this constructor call be accepted?  `Ok(expected table)` / `Err(reason)`
+fn ctor_verdict(p: u32, c: &Ctor) -> Option<Result<Vec<Triple>, String>> {
+    let (syms, probs, infer): (Option<&Vec<usize>>, &Vec<u128>, bool) = match c {
+        Ctor::Contig { probs, infer } | Ctor::Lookup { probs, infer } => (None, probs, *infer),
+        Ctor::NcDec { syms, probs, infer } | Ctor::NcEnc { syms, probs, infer } | Ctor::NcLookup { syms, probs, infer } => (Some(syms), probs, *infer),
+        _ => return None,
+    };
+    let full = match table_verdict(p, probs, infer) {
+        Ok(f) => f,
+        Err(e) => return Some(Err(e)),
+    };
+    let labels: Vec<usize> = match syms {
+        None => (0..full.len()).collect(),
+        Some(s) => {
+            if s.len() != full.len() {
+                return Some(Err(format!("{} symbols for {} entries", s.len(), full.len())));
+            }
+            if let Ctor::NcEnc { .. } = c {
+                let d = s.iter().collect::<std::collections::HashSet<_>>().len();
+                if d != s.len() {
+                    return Some(Err("a symbol occurs twice (its second interval would be lost)".into()));
+                }
+            }
+            s.clone()
+        }
+    };
+    Some(Ok(expected_table(&labels, &full)))
+}
+
+/// arbitrary input: the constructor must accept exactly the valid inputs, and what it accepts
+/// must be that model (checked structurally before any query that could reach unsafe code)
 fn oracle_arbitrary(rng: &mut Rng, rep: &mut Report, b: u32, p: u32, c: &Ctor) {
     let desc = describe(b, p, c);
     rep.eval("C19");
+    let verdict = ctor_verdict(p, c);
     match guarded(|| build(b, p, c)) {
         Ok(Some(Built::Ok(m))) => {
             rep.count("C19.arbitrary.accepted");
-            // what the input *means*, if it means anything: probabilities as given
-            let expect: Option<Vec<Triple>> = match c {
-                Ctor::NcEnc { syms, probs, infer } => {
-                    let mut ps = probs.clone();
-                    if *infer {
-                        let s: u128 = ps.iter().sum();
-                        ps.push(pow2(p).wrapping_sub(s));
-                    }
-                    Some(expected_table(syms, &ps))
+            let expect: Option<Vec<Triple>> = match &verdict {
+                Some(Ok(t)) => Some(t.clone()),
+                Some(Err(reason)) => {
+                    cat_fail(rep, "C19", format!("{} => accepted although {}", desc, reason));
+                    None
                 }
-                _ => None,
+                None => None,
             };
-            if let Ctor::NcEnc { syms, .. } = c {
-                let d = syms.iter().collect::<std::collections::HashSet<_>>().len();
-                if d != syms.len() {
-                    cat_fail(rep, "C19", format!("{} => accepted although a symbol occurs twice (its second interval is lost)", desc));
-                }
-            }
             match check_model(rng, rep, &desc, b, p, m.as_ref(), expect.as_deref(), "C19") {
                 Some(t) => {
                     if t.len() < 2 {
                         cat_fail(rep, "C19", format!("{} => accepted a model with a single symbol", desc));
                     }
+                    if let Some(e) = &expect {
+                        if t[..] != e[..] {
+                            cat_fail(rep, "C19", format!("{} | table => {} but the input describes {}", desc, show_table(&t), show_table(e)));
+                        }
+                    }
                 }
                 None => {}
             }
         }
-        Ok(Some(Built::Rejected)) => rep.count("C19.arbitrary.rejected"),
+        Ok(Some(Built::Rejected)) => {
+            rep.count("C19.arbitrary.rejected");
+            if let Some(Ok(_)) = verdict {
+                cat_fail(rep, "C19", format!("{} => rejected although the input is valid", desc));
+            }
+        }
         Ok(_) => {}
-        Err(_) => rep.count("C19.arbitrary.panicked"),
+        Err(class) => {
+            rep.count("C19.arbitrary.panicked");
+            if let Some(Ok(_)) = verdict {
+                cat_fail(rep, "C19", format!("{} => {} although the input is valid", desc, class));
+            }
+        }
     }
+}
+
+/// directed invalid (and borderline valid) tables for one `(B, P)`: every class is produced
+/// with and without `infer_last_probability`
+fn directed_tables(rng: &mut Rng, b: u32, p: u32) -> Vec<Vec<u128>> {
+    let maxv = pow2(b) - 1;
+    let t = pow2(p);
+    let fits = |v: &Vec<u128>| v.iter().all(|&x| x <= maxv);
+    let mut out: Vec<Vec<u128>> = Vec::new();
+    // n = 0, 1, 2 entries over boundary values
+    out.push(vec![]);
+    let edge: Vec<u128> = {
+        let mut e = vec![0, 1, 2, t / 2, t - 1, t, t + 1, maxv / 2 + 1, maxv - 1, maxv];
+        e.retain(|&x| x <= maxv);
+        e.sort();
+        e.dedup();
+        e
+    };
+    for &x in &edge {
+        out.push(vec![x]);
+        for &y in &edge {
+            out.push(vec![x, y]);
+        }
+    }
+    // valid bases of 2..5 entries and their neighbours
+    for n in 2..=5usize {
+        if (n as u128) > t {
+            continue;
+        }
+        let base = random_table(rng, p, n);
+        out.push(base.clone()); // sum exactly 2^P (valid without, invalid with infer_last)
+        for i in [0, n / 2, n - 1] {
+            // sum = 2^P + 1, 2^P - 1
+            let mut v = base.clone();
+            v[i] += 1;
+            out.push(v);
+            let mut v = base.clone();
+            v[i] -= 1; // may create a zero entry: also wanted
+            out.push(v);
+            // a single zero entry at first / middle / last position, total unchanged
+            let mut v = base.clone();
+            v.insert(i.min(v.len()), 0);
+            out.push(v);
+            let mut v = base.clone();
+            v.insert(i + 1, 0);
+            out.push(v);
+            // an entry equal to 2^P
+            let mut v = base.clone();
+            v[i] = t;
+            out.push(v);
+            // exactly one extra lap: sum = 2^P + 2^B (and with infer: 2^B + something < 2^P)
+            let mut v = base.clone();
+            v.insert(i, maxv);
+            v.insert(i, 1);
+            out.push(v);
+            let mut v = base.clone();
+            v.pop();
+            v.insert(i.min(v.len()), maxv);
+            v.insert(i.min(v.len()), 1);
+            out.push(v);
+        }
+        // one wrap in the middle at P == B style: two big entries
+        out.push(vec![maxv - maxv / 4, maxv / 2 + 1]);
+        out.push(vec![maxv / 4 + 1, 0, maxv / 4 + 1]);
+        // everything without the last entry (valid with infer_last)
+        let mut v = base.clone();
+        v.pop();
+        out.push(v);
+    }
+    out.retain(|v| fits(v));
+    out
 }
 
 fn oracle_uniform(rng: &mut Rng, rep: &mut Report, b: u32, p: u32, range: usize, conv: bool) {
@@ -338,8 +507,11 @@ fn oracle_uniform(rng: &mut Rng, rep: &mut Report, b: u32, p: u32, range: usize,
     match guarded(|| build(b, p, &c)) {
         Ok(Some(Built::Ok(m))) => {
             if !valid {
-                // accepted although the range is not representable: must still be a valid model
+                // do not query it: `quantile_function` / `symbol_table` build `NonZero`s unchecked
                 rep.count("C19.uniform.accepted_unexpected");
+                cat_fail(rep, "C19", format!("{} => accepted although range is not in 2..=2^P", desc));
+                cat_fail(rep, "C20", format!("{} => accepted model with range outside 2..=2^P would reach into_nonzero_unchecked(0) in its query functions (queries skipped)", desc));
+                return;
             }
             if range <= 70000 {
                 if let Some(t) = check_model(rng, rep, &desc, b, p, m.as_ref(), None, "C03") {
@@ -509,6 +681,24 @@ pub fn oracle(rng: &mut Rng, tier: &str, rep: &mut Report) {
                     let labels: Vec<usize> = (0..probs.len() + infer as usize).map(|i| 5 + i).collect();
                     oracle_arbitrary(rng, rep, b, p, &ctor_for(kind, &labels, &probs, infer));
                     rep.count("C19.single_symbol_inputs");
+                }
+            }
+            // directed invalid / borderline classes, every kind, with and without infer_last
+            let tables = directed_tables(rng, b, p);
+            for (ti, probs) in tables.iter().enumerate() {
+                for infer in [false, true] {
+                    for (ki, kind) in KINDS.iter().enumerate() {
+                        if b == 32 && kind.contains("lookup") {
+                            continue;
+                        }
+                        // quick: every table on the contiguous constructor, the others in rotation
+                        if !thorough && ki != 0 && (ti + ki) % 4 != 0 {
+                            continue;
+                        }
+                        let labels: Vec<usize> = (0..probs.len() + infer as usize).map(|i| 3 * i + 2).collect();
+                        oracle_arbitrary(rng, rep, b, p, &ctor_for(kind, &labels, probs, infer));
+                        rep.count(&format!("C19.directed.{}{}", kind, if infer { ".infer" } else { "" }));
+                    }
                 }
             }
         }
